@@ -43,7 +43,8 @@ ASSUMPTIONS = [
     "counted in probe.any_ambiguous_at_build, not judged",
     "same-instant ordering between events follows creation order (C01)",
 ]
-EXPECTED_PROBES = ["probe.non_native_generator", "probe.future_object_as_value", "probe.shared_leaf_woke_two", "probe.shared_empty_list_form", "probe.pre_resolved_wait", "probe.resolve_twice", "probe.nested_combinator",
+EXPECTED_PROBES = ["probe.prepared_event_yielded_as_side_effect", "probe.future_awaited_again_after_resolution",
+                   "probe.same_future_twice_in_one_combinator", "probe.non_native_generator", "probe.future_object_as_value", "probe.shared_leaf_woke_two", "probe.shared_empty_list_form", "probe.pre_resolved_wait", "probe.resolve_twice", "probe.nested_combinator",
                    "probe.hook_on_process", "probe.sub_generator", "probe.any_ambiguous_at_build",
                    "probe.sub_ns_delay_truncated"]
 SHRINK_SKIP = ("futures",)
@@ -119,6 +120,24 @@ def _tiny(steps):
     return False
 
 
+def _dup_leaf(sc) -> bool:
+    def dup(t):
+        if "f" in t:
+            return False
+        kids = t.get("any") or t.get("all")
+        fs = [k["f"] for k in kids if "f" in k]
+        return len(fs) != len(set(fs)) or any(dup(k) for k in kids)
+
+    def walk(steps):
+        for s in steps:
+            if s["op"] in ("wait", "make") and dup(s["tree"]):
+                return True
+            if s["op"] == "sub" and walk(s["steps"]):
+                return True
+        return False
+    return any(walk(p["steps"]) for p in sc["procs"])
+
+
 def _shared_empty(sc) -> int:
     """max number of 'shared_empty' yields (without emits) in one process"""
     def count(steps):
@@ -154,6 +173,9 @@ def run(sc):
     counters["probe.shared_empty_list_form"] = int(_shared_empty(sc) >= 2)
     counters["probe.non_native_generator"] = int(any(p.get("wrap_gen") for p in sc["procs"]))
     counters["probe.future_object_as_value"] = int("'fut':" in repr(sc))
+    counters["probe.prepared_event_yielded_as_side_effect"] = int("'prepared'" in repr(sc["procs"]))
+    counters["probe.future_awaited_again_after_resolution"] = int("'again': True" in repr(sc["procs"]))
+    counters["probe.same_future_twice_in_one_combinator"] = int(_dup_leaf(sc))
     counters["probe.parked_forever"] = int(len(ref.waiting) > 0)
     counters[f"loop.{sc.get('loop')}"] = 1
     state = repr((sc.get("loop"), tuple(sorted(k for k, v in counters.items() if k.startswith("probe.") and v))))
